@@ -157,6 +157,7 @@ func parseCEA(m *wireMsg) ceaObs {
 type cerVariant struct {
 	Local      string
 	Configured []net.IP
+	Deprecated net.IP // Settings.HostIPAddress (deprecated, single): used only when the list is empty
 	Note       string
 	Dual       bool // the server's dictionary defines application 777 twice: as auth and as acct
 	WFail      bool // the transport refuses every write
@@ -167,6 +168,9 @@ type cerVariant struct {
 }
 
 const dualXML1 = `<?xml version="1.0" encoding="UTF-8"?><diameter><application id="777" type="auth" name="Dual-Auth"></application></diameter>`
+
+// an accounting application that names a vendor: advertised inside Vendor-Specific-Application-Id, as accounting
+const vacctXML = `<?xml version="1.0" encoding="UTF-8"?><diameter><application id="778" type="acct" name="Vendor-Acct"><vendor id="10415" name="TGPP"/></application></diameter>`
 const dualXML2 = `<?xml version="1.0" encoding="UTF-8"?><diameter><application id="777" type="acct" name="Dual-Acct"></application></diameter>`
 
 var dualParser *dict.Parser
@@ -198,6 +202,12 @@ func runCER(id int, c *cerSpec, v cerVariant, dapps []appRef, repo string) cerLi
 	for _, ip := range v.Configured {
 		set.HostIPAddresses = append(set.HostIPAddresses, datatype.Address(ip))
 		cs.HostIPs = append(cs.HostIPs, addrInts(ip))
+	}
+	if v.Deprecated != nil {
+		set.HostIPAddress = datatype.Address(v.Deprecated)
+		if len(v.Configured) == 0 {
+			cs.HostIPs = append(cs.HostIPs, addrInts(v.Deprecated))
+		}
 	}
 	if host, _, err := net.SplitHostPort(v.Local); err == nil {
 		if ip := net.ParseIP(host); ip != nil {
@@ -323,7 +333,12 @@ func CER(a Args) error {
 	if err := dict.Default.Load(strings.NewReader(dualXML2)); err != nil {
 		return err
 	}
-	dapps = append(dapps, appRef{T: "auth", ID: abs.B4(777)}, appRef{T: "acct", ID: abs.B4(777)})
+	if err := dict.Default.Load(strings.NewReader(vacctXML)); err != nil {
+		return err
+	}
+	dapps = append(dapps, appRef{T: "auth", ID: abs.B4(777)}, appRef{T: "acct", ID: abs.B4(777)}, appRef{T: "acct", ID: abs.B4(778)})
+	both := cerVariant{Local: "10.0.0.1:3868", Configured: []net.IP{net.ParseIP("10.1.1.1"), net.ParseIP("2001:db8::5")}, Deprecated: net.ParseIP("192.0.2.99"), Note: "configured+deprecated"}
+	deponly := cerVariant{Local: "10.0.0.1:3868", Deprecated: net.ParseIP("192.0.2.99"), Note: "deprecated-only"}
 	base := cerVariant{Local: "10.0.0.1:3868", Note: "derived-ipv4"}
 	noaddr := cerVariant{Local: "pipe", Note: "no-address"}
 	wfail := cerVariant{Local: "10.0.0.1:3868", WFail: true, Note: "write-fails"}
@@ -344,6 +359,12 @@ func CER(a Args) error {
 				out.Emit(runCER(id, &c, wfail, dapps, a.Repo))
 			case 2, 6: // the same CER on a state machine that has already served another connection
 				out.Emit(runCER(id, &c, warm, dapps, a.Repo))
+			case 1: // the list and the deprecated single address both configured: the list is what a CEA carries
+				if id%16 == 1 {
+					out.Emit(runCER(id, &c, both, dapps, a.Repo))
+				} else {
+					out.Emit(runCER(id, &c, deponly, dapps, a.Repo))
+				}
 			case 5, 7: // the same CER with its application AVPs not marked mandatory
 				c2 := c
 				c2.NoM = true
@@ -368,9 +389,9 @@ func CER(a Args) error {
 		{Local: "[2001:db8::1]:3868", Note: "derived-ipv6"},
 		{Local: "127.0.0.1:3868", Note: "derived-loopback"},
 		{Local: "[2001:db8::1]:3868", Configured: []net.IP{net.ParseIP("192.0.2.7")}, Note: "configured-ipv6-endpoint"},
-		noaddr, wfail, warm,
+		noaddr, wfail, warm, both, deponly,
 	}
-	ids := [][]int{abs.B4(4), abs.B4(3), abs.B4(12345), abs.B4(1), abs.B4(16777251), abs.B4(0xffffffff), abs.B4(16777238), abs.B4(77), abs.B4(777), abs.B4(777)}
+	ids := [][]int{abs.B4(778), abs.B4(778), abs.B4(4), abs.B4(3), abs.B4(12345), abs.B4(1), abs.B4(16777251), abs.B4(0xffffffff), abs.B4(16777238), abs.B4(77), abs.B4(777), abs.B4(777)}
 	randItem := func() appItem {
 		mk := func() appItem {
 			return appItem{T: []string{"acct", "auth"}[r.Intn(2)], ID: ids[r.Intn(len(ids))], Inner: []appItem{}}
